@@ -186,6 +186,11 @@ func (b *baseExecutor) buildRecordImages(rowsi driver.Rows, tableMetaData *types
 		}
 		rowImages = append(rowImages, types.RowImage{Columns: columns})
 	}
+	// a result that broke off in the middle (lock wait timeout, connection lost) is not the image: the rows read
+	// so far must not pass for all the rows the statement touches
+	if err := sqlRows.Err(); err != nil {
+		return nil, err
+	}
 
 	return &types.RecordImage{TableName: tableMetaData.TableName, Rows: rowImages, SQLType: sqlType}, nil
 }
